@@ -24,7 +24,7 @@ DEPTH = {"quick": 4, "thorough": 5}
 NEST = 50
 
 STICKY = ["2 # 3", "", "2 3", ")", "+", "x =", "x +", "x *", "2 ^", "x ^", "-", "x!", "(x", "(", "sgn", "sgn(", "1.2.3",
-          "4x + 2", "x = 2", "sgn(-3)", "5!", "(x + 1)(x - 1)"]
+          "4x + 2", "x = 2", "sgn(-3)", "5!", "(x + 1)(x - 1)", "23", "s gn(2)", "(" * 64 + "x", "sgn(" * 40 + "x"]
 
 
 def _ok_errors():
@@ -193,11 +193,25 @@ def _work_sticky(task):
     return acc
 
 
+SPELLINGS = ["sgn", "Sgn", "SGN", "sgN", "sGn", "abs", "Abs", "sgnn", "xsgn", "sg", "gn", "nsg"]
+SPELL_TEMPLATES = ["{f}(2)", "{f}(x)", "2{f}(x)", "{f}(x)^2", "{f} (x)", "{f}(", "{f}", "{f}(x)(y)", "x{f}(2)", "{f}({f}(2))", "-{f}(-2)",
+                   "{f}(2)!", "({f})(2)", "{f}2", "{f}^2(x)"]
+
+
 def _work_misc(task):
     watchdog.install()
     acc = Acc()
     kind = task[0]
     if kind == "nest":
+        # every spelling of a letter run around the registered function names, in call-like positions:
+        # the tokenizer's function table and the parser's lookup must agree
+        for f in SPELLINGS:
+            for tpl in SPELL_TEMPLATES:
+                text = tpl.format(f=f)
+                acc.count("parses")
+                acc.count("function_spelling_cases")
+                for k, detail in check_parse(text):
+                    acc.violation(f"{k}|{text!r}", {"part": "A", "text": text, "kind": k, "sep": ""}, f"input {text!r}: {detail}")
         for nk in ("paren", "neg", "fn", "pow", "mix", "implicit"):
             for d in range(1, NEST + 1):
                 acc.count("nesting_cases")
